@@ -466,7 +466,7 @@ def main():
                 if r.get("error"):
                     undecided.append("stand-in %s: %s" % (s, r["error"]))
                 elif r.get("failures", 0) > 0:
-                    new_violation_from_replay.append({"obligation": "bounded stand-in " + s + " (assumed contract of " + r.get("for", "?") + ")",
+                    new_violation_from_replay.append({"obligation": "bounded stand-in " + s + " (run on the real crate: " + r.get("for", "?") + ")",
                                                       "counterexample": r.get("first_failure"), "messages": []})
             for f in findings:
                 r, w = run_replay(binp, ["finding", f["id"]], timeout=600)
